@@ -74,7 +74,8 @@ func c20Program(seed uint64, steps int) *transcript {
 	t := &transcript{}
 	var cur *simdjson.ParsedJson
 	ser := simdjson.NewSerializer()
-	var serDst *simdjson.ParsedJson
+	var serDst, prevDeser *simdjson.ParsedJson
+	var prevDump []byte
 	docOf := func() ([]byte, bool) {
 		size := []int{30, 300, 3000, 9000, 40000}[r.Intn(5)]
 		bad := r.Chance(1, 6)
@@ -238,8 +239,39 @@ func c20Program(seed uint64, steps int) *transcript {
 			}
 			roots, werr := walk.Into(out)
 			t.add(fmt.Sprintf("ser-mode%d", mode), dumpRoots(roots), []byte(fmt.Sprint(werr)))
+			if prevDeser != nil && prevDeser != out && r.Chance(1, 2) {
+				// string edits on this deserialized object must not show in another one
+				before := append([]byte{}, prevDump...)
+				it := out.Iter()
+				n := 0
+				for {
+					tag := it.AdvanceInto()
+					if tag == simdjson.TagEnd || n > 30 {
+						break
+					}
+					n++
+					if tag == simdjson.TagString && r.Chance(1, 2) {
+						it.SetString(fmt.Sprintf("deser-edit-%d", n))
+					}
+				}
+				pr, perr2 := walk.Into(prevDeser)
+				now := append(dumpRoots(pr), fmt.Sprint(perr2)...)
+				if !bytes.Equal(before, now) {
+					t.add("OTHER-DESERIALIZED-OBJECT-CHANGED")
+					t.broken = "SetString on one deserialized object changed another deserialized object"
+				}
+				o2, e2 := walk.Into(out)
+				t.add("deser-edit", dumpRoots(o2), []byte(fmt.Sprint(e2)))
+			}
+			{
+				pr, perr2 := walk.Into(out)
+				prevDeser, prevDump = out, append(dumpRoots(pr), fmt.Sprint(perr2)...)
+			}
 			if r.Bool() {
 				serDst = out
+				prevDeser = nil // it will be overwritten by the next Deserialize
+			} else {
+				serDst = nil
 			}
 		}
 	}
